@@ -248,9 +248,9 @@ class Unit:
                 opts = {}
                 m = re.search(r'\s(rules|rename)=', ' ' + rest)
                 selector = rest
-                for om in re.finditer(r'(rules|rename|props|novac)=(\S+)', rest):
+                for om in re.finditer(r'(rules|rename|props|novac|attr)=(\S+)', rest):
                     opts[om.group(1)] = om.group(2)
-                selector = re.sub(r'\s*(rules|rename|props|novac)=\S+', '', rest).strip()
+                selector = re.sub(r'\s*(rules|rename|props|novac|attr)=\S+', '', rest).strip()
                 fs = FnSpec(file, selector, opts)
                 # sub-directives until //@END
                 while i < n:
@@ -390,6 +390,8 @@ class Unit:
         if self.vacuity:
             # in the twin file only the `__vac` copies are verified; originals keep their contracts for callers
             self.emit('#[verifier::external_body]\n')
+        if fs.opts.get('attr'):
+            self.emit('#[%s]\n' % fs.opts['attr'])
         self.emit(sig + '\n')
         if fs.spec.strip():
             self.emit(fs.spec.rstrip('\n') + '\n')
@@ -407,6 +409,8 @@ class Unit:
             else:
                 vspec = vspec.rstrip('\n') + '\n    ensures false,\n'
             self.emit('// ---- vacuity twin of %s ----\n' % fs.selector)
+            if fs.opts.get('attr'):
+                self.emit('#[%s]\n' % fs.opts['attr'])
             self.emit(vsig + '\n' + vspec.rstrip('\n') + '\n' + body + '\n')
             self.twins.append(fname + '__vac')
 
